@@ -178,6 +178,20 @@ where
             .ok_or_else(|| StorageError::FolderNotFound(*folder_id))?;
         folder.force_merge(&diff).await?;
 
+        // The folder contents were replaced so the documents
+        // in the search index must be replaced too
+        #[cfg(feature = "search")]
+        if let Some(index) = self.0.search_index() {
+            let search = index.search();
+            let mut writer = search.write().await;
+            writer.remove_vault(folder_id);
+            if let Some(folder) = self.0.folders().get(folder_id) {
+                let access_point = folder.access_point();
+                let access_point = access_point.lock().await;
+                writer.add_folder(&access_point).await?;
+            }
+        }
+
         outcome.changes += len;
         outcome.tracked.add_tracked_folder_changes(
             folder_id,
